@@ -140,6 +140,22 @@ func c01Run(r *fw.R, d c01Desc) {
 	defer sv.CloseNow()
 	cl.SetReadLimit(-1)
 	sv.SetReadLimit(-1)
+	if d.Seed%2 == 0 {
+		// the receivers allow exactly the largest message the program sends them (a message AT the limit is
+		// within it), and the limit is set again between messages
+		maxOf := func(prog []c01Msg) int64 {
+			m := 0
+			for _, x := range prog {
+				if x.Size > m {
+					m = x.Size
+				}
+			}
+			return int64(m)
+		}
+		sv.SetReadLimit(maxOf(d.C2S))
+		cl.SetReadLimit(maxOf(d.S2C))
+		r.Count("connections_with_the_read_limit_at_the_largest_message", 2)
+	}
 	params := attach.ParseExt(negotiated)
 	sample := d
 	if len(sample.C2S) > 6 {
